@@ -19,7 +19,7 @@ for sid in ids:
     try:
         res = {}
         for mode, env in (('verus+replayer', dict(VERIF_NO_KANI='1', VERIF_NO_CANARY='1')), ('with-kani', dict(VERIF_NO_CANARY='1'))):
-            e = dict(os.environ, VERIF_WORK='/tmp/vwork_seeded', **env)
+            e = dict(os.environ, VERIF_WORK='/tmp/vwork_seeded', VERIF_EVIDENCE_DIR='/tmp/vwork_seeded/evidence', **env)
             pr = subprocess.run(['./check', pid], cwd=V, capture_output=True, text=True, env=e)
             lines = [l for l in pr.stdout.split('\n') if re.match(r'(VIOLATION|UNDECIDED|OK|obligation failed)', l)]
             res[mode] = dict(exit=pr.returncode, lines=[l[:260] for l in lines[:4]])
